@@ -7,14 +7,18 @@
   list of operations — requests (with any outcome of opening a new connection), replies in
   any order (also late and duplicate ones), timers firing for any subset of calls at any
   point, connections dying at any point, the hub running deferred hand-offs at any point,
-  `Close()` and `Open()` at any point.  `runOps cfg St.init ops` is the pool's state after
+  `Close()` and `Open()` at any point; a request that makes the pool create a connection either
+  sees it open (or fail) at once, or blocks in `Open().wait()` — then further operations,
+  including further requests, happen while it is connecting, until `opened sid ok` ends the
+  connect with either outcome.  `runOps cfg St.init ops` is the pool's state after
   them.  No theorem below bounds sizes or lengths.
 -/
 import ScalesModel.Proofs.WatermarkLemmas
 namespace Scales.Watermark
 
-/-- `_current_size` is exactly the number of connections that are lent to a call, cached, or
-    waiting in a deferred hand-off: no slot is ever counted without a connection behind it. -/
+/-- `_current_size` is exactly the number of connections that are held by a call (lent to it,
+    or being opened for it), cached, or waiting in a deferred hand-off: no slot is ever counted
+    without a connection behind it, and every connection being opened is counted. -/
 theorem C07_size_accounts_live (cfg : Cfg) (ops : List Op) :
     (runOps cfg St.init ops).size =
       (lentIds (runOps cfg St.init ops).base).length + (runOps cfg St.init ops).cache.length +
@@ -26,8 +30,9 @@ theorem C07_size_accounts_live (cfg : Cfg) (ops : List Op) :
   simp at this
   omega
 
-/-- the connections that are alive (created, not closed by the pool, not dead) never outnumber
-    the counted size, which never exceeds `max_watermark`. -/
+/-- the connections that are alive (created — including those whose `Open()` is still pending —
+    not closed by the pool, not dead) never outnumber the counted size, which never exceeds
+    `max_watermark`. -/
 theorem C07_bounded (cfg : Cfg) (ops : List Op) :
     (aliveIds (runOps cfg St.init ops).base).length ≤ (runOps cfg St.init ops).size ∧
     (runOps cfg St.init ops).size ≤ cfg.max := by
@@ -36,16 +41,17 @@ theorem C07_bounded (cfg : Cfg) (ops : List Op) :
   rw [view_of_nil he] at this
   exact ⟨this, hi.size_le⟩
 
-/-- a connection is held by at most one call, and a connection held by a call is neither
-    cached nor in a deferred hand-off (so it cannot be given to anybody else). -/
-theorem C07_exclusive (cfg : Cfg) (ops : List Op) (c1 c2 sid : Nat)
-    (h1 : (runOps cfg St.init ops).base.calls[c1]? = some (.started sid))
-    (h2 : (runOps cfg St.init ops).base.calls[c2]? = some (.started sid)) :
+/-- a connection is held by at most one call (whether it is lent to it, being opened for it,
+    or still held although the caller has been answered), and a connection held by a call is
+    neither cached nor in a deferred hand-off (so it cannot be given to anybody else). -/
+theorem C07_exclusive_any (cfg : Cfg) (ops : List Op) (c1 c2 sid : Nat) (st1 st2 : CStat)
+    (h1 : (runOps cfg St.init ops).base.calls[c1]? = some st1) (hs1 : st1.holds = some sid)
+    (h2 : (runOps cfg St.init ops).base.calls[c2]? = some st2) (hs2 : st2.holds = some sid) :
     c1 = c2 ∧ sid ∉ (runOps cfg St.init ops).cache ∧ sid ∉ (runOps cfg St.init ops).tasks := by
   obtain ⟨hi, he⟩ := inv_runOps (cfg := cfg) ops St.init (inv_init cfg) rfl
   have hv := view_of_nil he
-  have a1 := hi.startedLent sid c1 (by rw [hv]; exact h1)
-  have a2 := hi.startedLent sid c2 (by rw [hv]; exact h2)
+  have a1 := hi.startedLent sid c1 st1 (by rw [hv]; exact h1) hs1
+  have a2 := hi.startedLent sid c2 st2 (by rw [hv]; exact h2) hs2
   refine ⟨by rw [a1] at a2; injection a2, ?_, ?_⟩
   · intro hm
     have := (hi.free sid (by simp [held, hm])).2
@@ -53,6 +59,50 @@ theorem C07_exclusive (cfg : Cfg) (ops : List Op) (c1 c2 sid : Nat)
   · intro hm
     have := (hi.free sid (by simp [held, hm])).2
     rw [a1] at this; simp at this
+
+/-- a connection is never lent to two calls at once. -/
+theorem C07_exclusive (cfg : Cfg) (ops : List Op) (c1 c2 sid : Nat)
+    (h1 : (runOps cfg St.init ops).base.calls[c1]? = some (.started sid))
+    (h2 : (runOps cfg St.init ops).base.calls[c2]? = some (.started sid)) :
+    c1 = c2 ∧ sid ∉ (runOps cfg St.init ops).cache ∧ sid ∉ (runOps cfg St.init ops).tasks :=
+  C07_exclusive_any cfg ops c1 c2 sid _ _ h1 rfl h2 rfl
+
+/-- while connects are in flight: every connection that is being opened occupies a counted
+    slot, so together with the cached and handed-off ones they never exceed `max_watermark`
+    (the slot is taken *before* the caller blocks in `Open().wait()`). -/
+theorem C07_bounded_during_connect (cfg : Cfg) (ops : List Op) :
+    (openingIds (runOps cfg St.init ops).base).length + (runOps cfg St.init ops).cache.length +
+      (runOps cfg St.init ops).tasks.length ≤ (runOps cfg St.init ops).size ∧
+    (runOps cfg St.init ops).size ≤ cfg.max := by
+  have h1 := C07_size_accounts_live cfg ops
+  have h2 := (C07_bounded cfg ops).2
+  have h3 : (openingIds (runOps cfg St.init ops).base).length ≤
+      (lentIds (runOps cfg St.init ops).base).length := by
+    apply length_ids_le_of_imp
+    intro i _ hi
+    simp only [isOpening, isLent] at hi ⊢
+    cases h : (runOps cfg St.init ops).base.sinks[i]? with
+    | none => rw [h] at hi; simp at hi
+    | some k => rw [h] at hi; simp at hi ⊢; exact hi.2
+  exact ⟨by omega, h2⟩
+
+/-- a request that arrives while the pool is full — for instance because connects are in
+    flight — and finds nothing cached creates no connection: it is queued, or fails with
+    MaxWaiters. -/
+theorem C07_full_pool_creates_nothing (cfg : Cfg) (ops : List Op) (ok lat : Bool)
+    (hcache : (runOps cfg St.init ops).cache = []) (hfull : cfg.max ≤ (runOps cfg St.init ops).size) :
+    (step cfg (runOps cfg St.init ops) (.request ok lat)).2.evs =
+        [.queued (runOps cfg St.init ops).base.calls.length] ∨
+    (step cfg (runOps cfg St.init ops) (.request ok lat)).2.evs =
+        [.done (runOps cfg St.init ops).base.calls.length .maxWaiters] := by
+  obtain ⟨hi, he⟩ := inv_runOps (cfg := cfg) ops St.init (inv_init cfg) rfl
+  generalize runOps cfg St.init ops = s at *
+  show (stepSt cfg s (.request ok lat)).evs = _ ∨ (stepSt cfg s (.request ok lat)).evs = _
+  simp only [stepSt, get, hcache, dequeue]
+  rw [if_neg (by omega)]
+  by_cases hq : s.waiters.length + 1 > cfg.maxq
+  · rw [if_pos hq]; right; simp [St.emit, he]
+  · rw [if_neg hq]; left; simp [St.emit, he]
 
 /-- at most `max_queue_len` calls wait. -/
 theorem C07_queue_bounded (cfg : Cfg) (ops : List Op) :
@@ -64,14 +114,14 @@ theorem C07_queue_bounded (cfg : Cfg) (ops : List Op) :
 
 /-- a request that finds no cached connection, the pool full and the queue full fails at once
     with MaxWaiters (and nothing else happens). -/
-theorem C07_surplus_fails_at_once (cfg : Cfg) (ops : List Op) (ok : Bool)
+theorem C07_surplus_fails_at_once (cfg : Cfg) (ops : List Op) (ok lat : Bool)
     (hcache : (runOps cfg St.init ops).cache = []) (hfull : cfg.max ≤ (runOps cfg St.init ops).size)
     (hq : cfg.maxq ≤ (runOps cfg St.init ops).waiters.length) :
-    (step cfg (runOps cfg St.init ops) (.request ok)).2.evs =
+    (step cfg (runOps cfg St.init ops) (.request ok lat)).2.evs =
       [.done (runOps cfg St.init ops).base.calls.length .maxWaiters] := by
   obtain ⟨hi, he⟩ := inv_runOps (cfg := cfg) ops St.init (inv_init cfg) rfl
   generalize runOps cfg St.init ops = s at *
-  show (stepSt cfg s (.request ok)).evs = _
+  show (stepSt cfg s (.request ok lat)).evs = _
   simp only [stepSt, get, hcache, dequeue]
   rw [if_neg (by omega), if_pos (by omega)]
   simp [St.emit, he]
@@ -87,15 +137,17 @@ theorem C07_fifo (cfg : Cfg) (ops : List Op) (sid c : Nat) (rest : List Nat)
   obtain ⟨hi, he⟩ := inv_runOps (cfg := cfg) ops St.init (inv_init cfg) rfl
   exact run_handoff hi he ht hold
 
-/-- FIFO, part 2: on a pool that has never been closed, a fresh request is started at once
-    only when nobody is waiting (no overtaking). -/
-theorem C07_fifo_no_overtake (cfg : Cfg) (ops : List Op) (ok : Bool) (sid : Nat)
+/-- FIFO, part 2: on a pool that has never been closed, a fresh request is given a connection
+    at once (`started`), or allowed to open one (`connecting`), only when nobody is waiting
+    (no overtaking). -/
+theorem C07_fifo_no_overtake (cfg : Cfg) (ops : List Op) (ok lat : Bool) (sid : Nat) (st : CStat)
     (hnc : (runOps cfg St.init ops).everClosed = false)
-    (hstarted : (step cfg (runOps cfg St.init ops) (.request ok)).1.base.calls[
-        (runOps cfg St.init ops).base.calls.length]? = some (.started sid)) :
+    (hstarted : (step cfg (runOps cfg St.init ops) (.request ok lat)).1.base.calls[
+        (runOps cfg St.init ops).base.calls.length]? = some st)
+    (hholds : st.holds = some sid) :
     pendingIds (runOps cfg St.init ops).base = [] := by
   obtain ⟨hi, he⟩ := inv_runOps (cfg := cfg) ops St.init (inv_init cfg) rfl
-  exact request_no_overtake ok hi he hnc hstarted
+  exact request_no_overtake ok lat hi he hnc hstarted hholds
 
 /-- work conservation, part 2: a reply on a live connection of a pool that is not closed,
     while somebody waits, defers a hand-off of that very connection (which `C07_fifo` then
@@ -221,7 +273,7 @@ theorem C07_model_satisfies_spec (cfg : Cfg) (ops : List Op) (hwf : comp.wf cfg 
 /-- (1,1,2): call 0 holds the only connection, call 1 queues and times out, call 2 queues;
     the reply to call 0 defers a hand-off, which skips call 1 and starts call 2. -/
 example :
-    let ops := [Op.request true, .request true, .request true, .timeout 1, .respond 0]
+    let ops := [Op.request true false, .request true false, .request true false, .timeout 1, .respond 0]
     (runOps ⟨1, 1, 2⟩ St.init ops).tasks = [0] ∧ (runOps ⟨1, 1, 2⟩ St.init ops).waiters = [1, 2] ∧
     (runOps ⟨1, 1, 2⟩ St.init ops).base.calls[1]? = some .done ∧
     (runOps ⟨1, 1, 2⟩ St.init ops).base.calls[2]? = some .pending ∧
@@ -230,7 +282,7 @@ example :
 
 /-- (0,2,1): a connection dies while lent; its release closes the pool and fails the waiter. -/
 example :
-    let ops := [Op.request true, .request true, .request true, .die 0]
+    let ops := [Op.request true false, .request true false, .request true false, .die 0]
     (runOps ⟨0, 2, 1⟩ St.init ops).base.calls[0]? = some (.started 0) ∧
     isAlive (runOps ⟨0, 2, 1⟩ St.init ops).base 0 = false ∧
     (runOps ⟨0, 2, 1⟩ St.init ops).base.calls[2]? = some .pending ∧
@@ -240,16 +292,31 @@ example :
 
 /-- (1,1,0): the queue is full (length 0): the surplus request fails with MaxWaiters. -/
 example :
-    (runOps ⟨1, 1, 0⟩ St.init [Op.request true]).cache = [] ∧
-    (step ⟨1, 1, 0⟩ (runOps ⟨1, 1, 0⟩ St.init [Op.request true]) (.request true)).2.evs =
+    (runOps ⟨1, 1, 0⟩ St.init [Op.request true false]).cache = [] ∧
+    (step ⟨1, 1, 0⟩ (runOps ⟨1, 1, 0⟩ St.init [Op.request true false]) (.request true false)).2.evs =
       [.done 1 .maxWaiters] := by
   decide
 
 /-- traffic stops: min_watermark 1 of 2 connections is retained. -/
 example :
-    let ops := [Op.request true, .request true, .respond 0, .respond 1]
+    let ops := [Op.request true false, .request true false, .respond 0, .respond 1]
     allDone (runOps ⟨1, 2, 1⟩ St.init ops).base = true ∧ (runOps ⟨1, 2, 1⟩ St.init ops).tasks = [] ∧
     aliveIds (runOps ⟨1, 2, 1⟩ St.init ops).base = [1] ∧ (runOps ⟨1, 2, 1⟩ St.init ops).cache = [1] := by
+  decide
+
+/-- (0,2,3): two calls are connecting (both slots taken), a third arrives and has to queue;
+    call 0's timer fires while it is connecting; when its connect ends the request is still
+    sent, and the connection's answer gives the connection to the waiter. -/
+example :
+    let ops := [Op.request true true, .request true true, .request true true, .timeout 0]
+    (runOps ⟨0, 2, 3⟩ St.init ops).size = 2 ∧ openingIds (runOps ⟨0, 2, 3⟩ St.init ops).base = [0, 1] ∧
+    (runOps ⟨0, 2, 3⟩ St.init ops).waiters = [2] ∧
+    (runOps ⟨0, 2, 3⟩ St.init ops).base.calls[0]? = some (.orphan 0) ∧
+    (step ⟨0, 2, 3⟩ (runOps ⟨0, 2, 3⟩ St.init ops) (.opened 0 true)).2.evs = [.sent 0 0] ∧
+    (step ⟨0, 2, 3⟩ (step ⟨0, 2, 3⟩ (runOps ⟨0, 2, 3⟩ St.init ops) (.opened 0 true)).1 (.respond 0)).2.evs =
+      [.rel 0] ∧
+    (step ⟨0, 2, 3⟩ (step ⟨0, 2, 3⟩ (runOps ⟨0, 2, 3⟩ St.init ops) (.opened 0 true)).1 (.respond 0)).1.tasks =
+      [0] := by
   decide
 
 end Scales.Watermark
